@@ -46,3 +46,45 @@ Check (C10_reads_emit : forall (cmp infl : list N -> list N) (L : layout) (X : c
   exists i, read_info (emit cmp L X) = Ok i /\
     forall q, (match q with QValues _ _ _ => x_bigwig X = true | _ => True end) ->
       read_answer infl (emit cmp L X) i q = spec_answer X q).
+
+(* the caching reader, every history (composition with C03_history / C04_history) *)
+From BT Require Import Model.CachedRead Model.BigBedWrite Model.BBIReadBed Model.CachedBed_C10 Proofs.CachedReadInv Proofs.C10Cached.
+From BT Require Proofs.BedCached.
+Check (C10_cached_reads_emit : forall (cmp infl : list N -> list N) (L : layout) (X : content),
+  (forall b, infl (cmp b) = b) -> wf_b cmp L X = true -> x_bigwig X = true ->
+  exists i, read_info (emit cmp L X) = Ok i /\
+    forall qs1 qs2,
+      map ca_spec (fst (qrun infl (emit cmp L X) i cache0 qs1)) = map (fun q => spec_answer X (cq_spec q)) qs1
+      /\ map ca_spec (fst (qrun infl (emit cmp L X) i (c_reopen (snd (qrun infl (emit cmp L X) i cache0 qs1))) qs2))
+         = map (fun q => spec_answer X (cq_spec q)) qs2).
+Check (C10_cached_reads_emit_from : forall (cmp infl : list N -> list N) (L : layout) (X : content),
+  (forall b, infl (cmp b) = b) -> wf_b cmp L X = true -> x_bigwig X = true ->
+  exists i, read_info (emit cmp L X) = Ok i /\
+    forall qs c, CachedReadInv.cache_ok infl (emit cmp L X) i c ->
+      map ca_spec (fst (qrun infl (emit cmp L X) i c qs)) = map (fun q => spec_answer X (cq_spec q)) qs
+      /\ CachedReadInv.cache_ok infl (emit cmp L X) i (snd (qrun infl (emit cmp L X) i c qs))).
+Check (C10_cached_reads_emit_bed : forall (cmp infl : list N -> list N) (L : layout) (X : content),
+  (forall b, infl (cmp b) = b) -> wf_b cmp L X = true -> x_bigwig X = false ->
+  exists i, read_info (emit cmp L X) = Ok i /\
+    (forall qs1 qs2,
+      map Some (fst (bb_qrun infl (emit cmp L X) i cache0 qs1)) = map (fun q => spec_banswer (spec_answer X (bq_spec q))) qs1
+      /\ map Some (fst (bb_qrun infl (emit cmp L X) i (c_reopen (snd (bb_qrun infl (emit cmp L X) i cache0 qs1))) qs2))
+         = map (fun q => spec_banswer (spec_answer X (bq_spec q))) qs2)
+    /\ (forall qs c, BedCached.cache_ok infl (emit cmp L X) i c ->
+          c_bb_history infl (emit cmp L X) i c qs
+          = map (fun q => rmap (map b2e)
+                            (do id <- spec_chrom X (fst (fst q));
+                             Ok (filter (fun b => (snd (fst q) <=? b_end b) && (b_start b <=? snd q)) (beds_of X id)))) qs)).
+(* the renamings used in those statements are what they are said to be *)
+Check (eq_refl : cq_spec = fun q => match q with
+  | CachedRead.QInterval c s e => FormatEmit.QInterval c s e
+  | CachedRead.QValues c s e => FormatEmit.QValues c s e
+  | CachedRead.QZoom c s e lvl => FormatEmit.QZoom c s e lvl end).
+Check (eq_refl : ca_spec = fun a => match a with
+  | CachedRead.AInterval r => FormatEmit.AValuesIv r
+  | CachedRead.AValues r => FormatEmit.APerBase r
+  | CachedRead.AZoom r => FormatEmit.AZoom r end).
+Check (eq_refl : spec_banswer = fun a => match a with
+  | FormatEmit.ABeds r => Some (BAInterval (rmap (map b2e) r))
+  | FormatEmit.AZoom r => Some (BAZoom r)
+  | _ => None end).
